@@ -141,3 +141,8 @@ Definition m_evolve_inplace_verdict := evolve_inplace_verdict.
 Definition m_genu_verdict := genu_verdict.
 Definition m_rdm_tensor_verdict := rdm_tensor_verdict.
 Definition m_setdata_spec := setdata_spec.
+
+(* C12 *)
+From FQE Require Import Ext.
+Definition m_ext_blocks := ext_blocks.
+Definition m_ext_full := ext_full.
